@@ -175,6 +175,7 @@ class _Deque:
 
     def clear(self):
         self.owner._y("clear")
+        self.owner.cleared += list(self.d)     # observation only: what an explicit clear discards
         self.d.clear()
 
     def __len__(self):
@@ -200,6 +201,7 @@ class VQueue:
 
     def __init__(self, maxsize=0):
         self.queue = _Deque(self)
+        self.cleared = []
         self.mutex = _NoYieldMutex()
         self.name = "q%d" % VQueue._count
         VQueue._count += 1
